@@ -1,7 +1,7 @@
-\* C17(a) leg A thorough: 2 concurrent requests x 3 stores, open failures, early return, pool drops; Close gives back once
+\* C17(a) leg A thorough: 2 concurrent requests x 2 stores, open failures, early return, pool drops; Close gives back once
 SPECIFICATION Spec
 CONSTANTS NReq = 2
-          NStores = 3
+          NStores = 2
           Idempotent = TRUE
           MayFailOpen = TRUE
 INVARIANTS C17_ReturnedAtMostOnce C17_NeverShared
